@@ -115,21 +115,20 @@ fn judge(runner: &mut Runner, e: &Expect, extra: &(dyn Fn(&Expect, &Response) ->
     let (oa, pa) = run(runner);
     let (_ob, pb) = run(runner);
     stats.executions += 2;
-    // (printed addresses differ between runs: compare the normalised descriptions)
-    if pa.as_deref().map(normalise) != pb.as_deref().map(normalise) {
+    // A violation disagrees with the expectation in all three runs - not necessarily in the same way:
+    // behaviour that depends on addresses or on freed memory varies from run to run and is no less wrong.
+    // A disagreement that does not repeat every time is unstable: no verdict if nothing else was found.
+    let (Some(mut problem), Some(second)) = (pa.clone(), pb.clone()) else {
         stats.nondeterministic += 1;
         if stats.nondeterministic <= 2 {
-            eprintln!("NONDETERMINISTIC: {:?} vs {:?}\n{:?}", pa, pb, e.request.snippets);
-        }
-        return;
-    }
-    let Some(problem) = pa else {
-        stats.nondeterministic += 1;
-        if stats.nondeterministic <= 2 {
-            eprintln!("NONDETERMINISTIC (first run only): {:?}\n{:?}", first, e.request.snippets);
+            eprintln!("UNSTABLE (a disagreement that does not repeat in every run): {:?} / {:?} / {:?}\n{:?}", first, pa, pb, e.request.snippets);
         }
         return;
     };
+    // (printed addresses differ between runs: compare the normalised descriptions)
+    if normalise(&problem) != normalise(&second) {
+        problem = format!("{} (another run disagrees differently: {})", problem, second);
+    }
     if let Some(f) = attribute(e, &problem) {
         *stats.attributed.entry(f).or_insert(0) += 1;
         return;
@@ -180,7 +179,7 @@ where
         }
         total.nondeterministic += p.nondeterministic;
     }
-    if total.nondeterministic > 0 {
+    if total.nondeterministic > 0 && total.violations.is_empty() {
         crate::pool::machinery_failure(&format!("{} cases behaved differently when re-run", total.nondeterministic));
     }
     total
